@@ -67,20 +67,24 @@ def corpus(c, exe, ver):
 
 def run(c):
     c.assumptions += [
-        "modules fail only through the cyclic-dependency verdict of module.wait (every generated module file exists and "
-        "evaluates); a load error propagates to the loading module as the Starlark load error does",
+        "a module fails through the cyclic-dependency verdict of module.wait or because its environment cannot be set up "
+        "(a module of a project that is not in the build list: D23); every other generated module file exists and evaluates; "
+        "a load error propagates to the loading module as the Starlark load error does",
         "C06_progress-style termination needs weak fairness of the Go scheduler for a by-standing chain walk that can spin "
         "while two other goroutines are between publishing and un-publishing a cycle (DESIGN.md section 4)",
         "sync.Mutex / sync.Cond provide mutual exclusion and no lost wake-up for `for !loaded { Wait }` under the mutex",
-        "the verifPoint call sites in module.go / project.go are the patch repo-patches/loadercache/0002 (add-only)"]
+        "the verifPoint call sites in module.go / project.go are the patch repo-patches/loadercache/0002 (add-only)",
+        "C06_acyclic_ok / C06_deterministic / C06_cycle_reported are stated for projects all of whose reachable modules can be "
+        "fetched (NoBroken); C06_once, C06_deadlock_free and C06_unfetchable_reported hold for all projects"]
     c.coverage["rule"] = (
         "load graphs written out as real .dawn trees and loaded with dawn.Load: 11 fixed small shapes (shared helper chain = D4, "
-        "2/3-cycles behind one or two packages, self-load, BUILD files loading each other, diamond) + seeded graphs of 8 kinds "
-        "(chain, diamond, shared helper, n-cycle, self-load, cross-root, random DAG, random graph; 1-4 packages, <=9 modules). "
+        "2/3-cycles behind one or two packages, self-load, BUILD files loading each other, diamond) + seeded graphs of 9 kinds "
+        "(chain, diamond, shared helper, n-cycle, self-load, cross-root, random DAG, random graph, several loaders of a module that "
+        "cannot be fetched; 1-4 packages, <=9 modules). "
         "Per graph: schedules supplied by the Lean model (shortest way into a deadlock of the model version the tree contains), "
         "uniform-random and PCT schedules under the hook-driven controller, and free-running loads with sleeping modules; every run is "
         "judged (ModuleLoading per label <=1; acyclic: Load ok, every reachable module exactly once, targets and flags = those of the "
-        "reachable modules; cyclic: Load fails with a cyclic-dependency error; Load must return) and every 2nd/3rd trace is validated "
+        "reachable modules; cyclic: Load fails with a cyclic-dependency error; unfetchable module reachable: Load fails; Load must return) and every 2nd/3rd trace is validated "
         "step by step against the model by drv_loader; for the small graphs the observed outcomes must be among the model's "
         "exhaustively computed terminal outcomes, which must not contain DEADLOCK. distinct = distinct (graph, trace) lines.")
     c.prove()
